@@ -219,9 +219,29 @@ func (v *Validator) VerifyNewConfirms(block *types.Block, sigList []types.SignDa
 			log.Warn("Duplicate confirm", "hash", hash.Hex(), "signer", common.ToHex(nodeID[:4]))
 			continue
 		}
+		// A node can produce many different signature bytes for one hash. Count every signer once
+		if isSignerExist(block, hash, validConfirms, nodeID) {
+			log.Warn("Duplicate confirm signer", "hash", hash.Hex(), "signer", common.ToHex(nodeID[:4]))
+			continue
+		}
 		validConfirms = append(validConfirms, sig)
 	}
 	return validConfirms, lastErr
+}
+
+// isSignerExist test if the node has signed the block already: as its miner, in its saved confirms or in the new confirms
+func isSignerExist(block *types.Block, hash common.Hash, newConfirms []types.SignData, nodeID []byte) bool {
+	if minerNodeID, err := block.SignerNodeID(); err == nil && bytes.Compare(minerNodeID, nodeID) == 0 {
+		return true
+	}
+	for _, sigList := range [][]types.SignData{block.Confirms, newConfirms} {
+		for _, oldSig := range sigList {
+			if oldNodeID, err := oldSig.RecoverNodeID(hash); err == nil && bytes.Compare(oldNodeID, nodeID) == 0 {
+				return true
+			}
+		}
+	}
+	return false
 }
 
 // IsSigExist
